@@ -9,6 +9,7 @@
                        - = nothing extra
         pats: comma separated 9-letter patterns or "-"
      -> "valid=ab scope=ab dims=dA,dB M=<mod2>,<endpoint>,<multivalent>,<monovalent> MT=<mod2 matrix of (B,A)> sideok=0/1 real=0/1
+         fragile=<number of nodes that are not binary64 points and lie on >= 3 segments> inexact=<nodes that are not binary64 points>
          named=<11 chars 0/1: intersects disjoint touches crosses within contains overlaps equals covers coveredBy containsProperly>
          pat=<0/1 per pattern> nw=<witnesses> nn=<nodes> ns=<segments> [SPEC=..] [EV=<10 chars>] [TR=m,m,m,m]"
         (when a geometry is not valid / not in scope only valid= scope= dims= are printed; scope = valid and all polygons of
@@ -95,8 +96,11 @@ let () =
              let tr f = mstr (relate_oracle Mod2 (map_geom f ga) (map_geom f gb)) in
              Buffer.add_string extra (" TR=" ^ String.concat "," [tr (translate (z_of_int 7, z_of_int (-13))); tr reflect_x; tr reflect_y; tr swap_xy])
            end;
-           Printf.printf "%s M=%s MT=%s sideok=%c real=%c named=%s pat=%s nw=%d nn=%d ns=%d%s\n" head
-             (String.concat "," (List.map mstr ms)) (mstr mt) (b sok) (b real) (bstr named)
+           let fr = fragile_nodes ga gb in
+           let nx = List.length (List.filter (fun q -> not (representable q)) (nodes ga gb)) in
+           (match fr with ((x, y), w) :: _ -> Buffer.add_string extra (Printf.sprintf " fnode=%s/%s/%s" (string_of_z x) (string_of_z y) (string_of_z w)) | [] -> ());
+           Printf.printf "%s M=%s MT=%s sideok=%c real=%c fragile=%d inexact=%d named=%s pat=%s nw=%d nn=%d ns=%d%s\n" head
+             (String.concat "," (List.map mstr ms)) (mstr mt) (b sok) (b real) (List.length fr) nx (bstr named)
              (String.concat "" (List.map (fun p -> String.make 1 (pm m p)) pl))
              (List.length (witnesses ga gb)) (List.length (nodes ga gb)) (List.length (all_segs ga gb)) (Buffer.contents extra)
          end
